@@ -179,7 +179,9 @@ func init() {
 				t1, err1 := writeTar(l1)
 				t2, err2 := writeTar(l2)
 				v1img, err3 := buildImage([]layerSpec{{Tar: t1, Cmd: "L1"}, {Tar: t2, Cmd: "L2"}}, true)
-				if err := errors.Join(err1, err2, err3); err != nil {
+				// the same image without a config history (optional in OCI): chain layers come from the layers alone
+				v1nohist, err4 := buildImage([]layerSpec{{Tar: t1, Cmd: "L1"}, {Tar: t2, Cmd: "L2"}}, false)
+				if err := errors.Join(err1, err2, err3, err4); err != nil {
 					mu.Lock()
 					firstErr = err
 					mu.Unlock()
@@ -193,7 +195,11 @@ func init() {
 					}
 					var img *scimage.Image
 					var lerr error
-					p := Safely(func() { img, lerr = scimage.FromV1Image(v1img, cfg) })
+					src := v1img
+					if (d+lo/batch)%2 == 1 {
+						src = v1nohist
+					}
+					p := Safely(func() { img, lerr = scimage.FromV1Image(src, cfg) })
 					if p != "" || lerr != nil {
 						mu.Lock()
 						firstErr = fmt.Errorf("image load failed: %v %s", lerr, p)
@@ -201,18 +207,31 @@ func init() {
 						return
 					}
 					cls, _ := img.ChainLayers()
-					fsys := cls[len(cls)-1].FS()
-					for gi := lo; gi < hi; gi++ {
-						per := []any{}
-						for j := range cases[gi].Kinds {
-							path := fmt.Sprintf("g%d/n%d", gi, j+1)
-							var pr map[string][]any
-							if pn := Safely(func() { pr = slProbe(fsys, path) }); pn != "" {
-								pr = map[string][]any{"stat": {"panic:" + strings.SplitN(pn, "\n", 2)[0], 0}}
+					// the view below the deleting layer is asked first, then the final view, then the first again:
+					// the views share nodes, and no answer may leak from one into another
+					probeAll := func(fsys fs.FS, key string) {
+						for gi := lo; gi < hi; gi++ {
+							per := []any{}
+							for j := range cases[gi].Kinds {
+								path := fmt.Sprintf("g%d/n%d", gi, j+1)
+								var pr map[string][]any
+								if pn := Safely(func() { pr = slProbe(fsys, path) }); pn != "" {
+									pr = map[string][]any{"stat": {"panic:" + strings.SplitN(pn, "\n", 2)[0], 0}}
+								}
+								per = append(per, pr)
 							}
-							per = append(per, pr)
+							if results[gi][key] == nil {
+								results[gi][key] = map[string]any{}
+							}
+							results[gi][key].(map[string]any)[fmt.Sprint(d)] = per
 						}
-						results[gi]["obs"].(map[string]any)[fmt.Sprint(d)] = per
+					}
+					if !withReq && len(cls) >= 2 {
+						probeAll(cls[0].FS(), "obs0")
+					}
+					probeAll(cls[len(cls)-1].FS(), "obs")
+					if !withReq && len(cls) >= 2 {
+						probeAll(cls[0].FS(), "obs0again")
 					}
 					_ = img.CleanUp()
 				}
